@@ -1,3 +1,7 @@
 -- Property theorems, one file per property (helper lemmas under KskmProofs/Lemmas).
 import KskmProofs.C05
 import KskmProofs.C14
+import KskmProofs.C01
+import KskmProofs.C02
+import KskmProofs.C04
+import KskmProofs.C15
